@@ -154,6 +154,7 @@ def stub(name):
 
 
 _objctr = itertools.count(1)
+OBJLEAF = {}
 
 
 def ubound(t, depth=0):
@@ -217,6 +218,7 @@ class Exec:
         self.init_poison_pkgs = set()
         self.merge_funcs = set(self.opts.get('merge', []))
         self.trace = self.opts.get('trace', False)
+        self.init_mode = False
         self.sat_cache = {}
 
     # ------------------------------------------------------------------ types
@@ -267,11 +269,29 @@ class Exec:
         return self.zero_slots(t)[0]
 
     # ------------------------------------------------------------------ heap
-    def new_obj(self, st, slots, label=''):
+    def new_obj(self, st, slots, label='', pattern=None):
         oid = next(_objctr)
         st.heap[oid] = slots
         st.owned.add(oid)
+        if pattern:
+            OBJLEAF[oid] = pattern
         return oid
+
+    def leaf_of(self, oid, k):
+        p = OBJLEAF.get(oid)
+        if not p:
+            return None
+        return p[k % len(p)]
+
+    def ite_typed(self, g, a, b, t):
+        """if-then-else on values of Go type t."""
+        u = self.U(t)
+        if u.k == 'tuple':
+            return Tup([self.ite_typed(g, x, y, self.T(e)) for x, y, e in zip(a, b, u.elems)])
+        if u.k in ('array', 'struct'):
+            leafs = self.leafs(t)
+            return Agg([self.ite(g, x, y, lf) for x, y, lf in zip(a, b, leafs)])
+        return self.ite(g, a, b, u)
 
     def sym_candidates(self, ptr):
         """list of (guard, offset) for a pointer with symbolic indices."""
@@ -409,7 +429,7 @@ class Exec:
         cands = self.sym_candidates(ptr)
         for (g, off) in cands:
             for j, v in enumerate(vals):
-                slots[off + j] = self.ite(g, v, slots[off + j])
+                slots[off + j] = self.ite(g, v, slots[off + j], self.leaf_of(ptr.obj, off + j))
 
     # ------------------------------------------------------------------ solver
     def sat(self, st, extra=None, want_model=False):
@@ -578,7 +598,7 @@ class Exec:
         st = State()
         for name, g in self.prog.globals.items():
             t = self.T(g['t'])
-            oid = self.new_obj(st, list(self.zero_slots(t)), 'global ' + name)
+            oid = self.new_obj(st, list(self.zero_slots(t)), 'global ' + name, self.leafs(t))
             self.gobj[name] = oid
         self.harness = '<init>'
         init_ids = set(self.prog.inits)
@@ -812,14 +832,124 @@ class Exec:
         for i, b in enumerate(binds):
             nf.regs['fv%d' % i] = b
         nf.ret = ins
+        if name in self.merge_funcs and ins['op'] == 'Call' and not self.init_mode:
+            return self.merged_call(st, fr, ins, nf)
         st.frames.append(nf)
-        if fid.split('#')[0] in self.merge_funcs and not getattr(self, 'in_merge', False):
-            return self.merged_call(st, fr, nf)
         return None
 
-    def merged_call(self, st, fr, nf):
-        """explore the callee to completion and merge the resulting states."""
+    def merged_call(self, st, fr, ins, nf):
+        """explore the callee to completion from st and merge the resulting
+        states into one (if-then-else over the callee's path conditions). Falls
+        back to ordinary forking when the results cannot be merged."""
+        sub = st.fork()
+        saved_frames = st.frames
+        sub.frames = [nf]
+        base_len = len(st.pc)
+        paths_before = self.res.paths
+        ended_before = dict(self.res.ended)
+        fin = self.run_to_end(sub)
+        self.res.paths = paths_before   # sub-paths are not harness paths
+        for k in list(self.res.ended):
+            if k != 'panic':
+                self.res.ended[k] = ended_before.get(k, 0)
+        if not fin:
+            raise PathEnd('infeasible')
+
+        def as_value(vals):
+            if len(vals) == 1:
+                return vals[0]
+            if len(vals) > 1:
+                return Tup(vals)
+            return None
+
+        def adopt(f, value):
+            f.frames = [x.copy() for x in saved_frames]
+            f2 = f.frames[-1]
+            f2.regs[ins['r']] = value
+            f2.ii += 1
+            return f
+        if len(fin) == 1:
+            f = fin[0]
+            adopt(f, as_value(f.done))
+            # continue in f: copy its contents into st (st is the object the caller loop holds)
+            st.__dict__.update(f.__dict__)
+            return None
+        try:
+            merged = self.merge_states(st, fin, base_len, [as_value(f.done) for f in fin], self.T(ins['t']) if 't' in ins else None)
+        except Unmergeable as e:
+            self.res.notes.append('merge fallback (%s): %s' % (nf.fid, e))
+            outs = [adopt(f, as_value(f.done)) for f in fin]
+            self.res.forks += len(outs) - 1
+            return outs
+        mstate, mval = merged
+        adopt(mstate, mval)
+        st.__dict__.update(mstate.__dict__)
+        self.res.merges += 1
         return None
+
+    def merge_states(self, st, fin, base_len, values, rtype=None):
+        guards = []
+        for f in fin:
+            suffix = f.pc[base_len:]
+            guards.append(b_and(*suffix) if suffix else True)
+        first = fin[0]
+        for f in fin[1:]:
+            if f.counts != first.counts or f.choices != first.choices or f.labels != first.labels or len(f.notes) != len(first.notes):
+                raise Unmergeable('harness-level state differs')
+            if f.ro != first.ro or f.expect_panic != first.expect_panic:
+                raise Unmergeable('monitor state differs')
+        # value
+        val = values[-1]
+        for g, v in zip(reversed(guards[:-1]), reversed(values[:-1])):
+            val = self.ite_typed(g, v, val, rtype) if rtype is not None else self.ite(g, v, val)
+        # heap
+        heap = dict(first.heap)
+        allids = set()
+        for f in fin:
+            allids.update(f.heap.keys())
+        for oid in allids:
+            objs = [f.heap.get(oid) for f in fin]
+            present = [o for o in objs if o is not None]
+            if len(present) < len(objs):
+                # allocated on some paths only: private to those paths (a merged
+                # value referring to it would have been rejected by ite)
+                heap[oid] = present[0]
+                continue
+            o0 = objs[0]
+            if all(o is o0 for o in objs[1:]):
+                heap[oid] = o0
+                continue
+            n = len(o0)
+            if any(len(o) != n for o in objs):
+                raise Unmergeable('object size differs')
+            out = list(objs[-1])
+            for k in range(n):
+                cell = objs[-1][k]
+                for g, o in zip(reversed(guards[:-1]), reversed(objs[:-1])):
+                    if o[k] is not cell:
+                        cell = self.ite(g, o[k], cell, self.leaf_of(oid, k))
+                out[k] = cell
+            heap[oid] = out
+        m = first
+        m.heap = heap
+        m.owned = set()
+        m.pc = list(st.pc[:base_len])
+        disj = b_or(*guards)
+        if disj is not True:
+            m.pc.append(disj)
+        nd = {}
+        wr = set()
+        conc = None
+        for f in fin:
+            nd.update(f.nondet)
+            wr |= f.written
+            conc = dict(f.conc) if conc is None else {k: v for k, v in conc.items() if f.conc.get(k) == v}
+        m.nondet = nd
+        m.written = wr
+        m.conc = conc or {}
+        m.steps = max(f.steps for f in fin)
+        m.model = first.model
+        return m, val
 
     def do_return(self, st, fr, vals):
         st.frames.pop()
@@ -864,7 +994,12 @@ class Exec:
                 return x.cap
             raise EngineError('cap of %r' % (x,))
         if name == 'append':
-            return self.b_append(st, args[0], args[1])
+            et = None
+            if ins is not None and 't' in ins:
+                su = self.U(self.T(ins['t']))
+                if su.k == 'slice':
+                    et = self.T(su.elem)
+            return self.b_append(st, args[0], args[1], et)
         if name == 'copy':
             return self.b_copy(st, args[0], args[1])
         if name in ('print', 'println'):
@@ -902,7 +1037,7 @@ class Exec:
             return v
         return self.concretize(st, v, what)
 
-    def b_append(self, st, s, t):
+    def b_append(self, st, s, t, et=None):
         add = self.slice_elems(st, t)
         stride = s.stride
         if isinstance(t, Str):
@@ -926,7 +1061,8 @@ class Exec:
         old = st.heap[s.obj][s.off:s.off + ln * stride] if s.obj is not None else []
         zero = self.elem_zero_for(s, add, stride)
         slots = list(old) + list(add) + zero * (ncap - ln - nadd)
-        oid = self.new_obj(st, slots, 'append')
+        pat = self.leafs(et) if et is not None else (OBJLEAF.get(s.obj) if s.obj is not None else None)
+        oid = self.new_obj(st, slots, 'append', pat)
         return Slice(oid, 0, ln + nadd, ncap, stride)
 
     def elem_zero_for(self, s, add, stride):
@@ -1042,7 +1178,7 @@ def h_debugref(ex, st, fr, ins):
 @handler('Alloc')
 def h_alloc(ex, st, fr, ins):
     t = ex.T(ins['elem'])
-    oid = ex.new_obj(st, list(ex.zero_slots(t)), ins.get('comment', ''))
+    oid = ex.new_obj(st, list(ex.zero_slots(t)), ins.get('comment', ''), ex.leafs(t))
     fr.regs[ins['r']] = Ptr(oid, 0)
     fr.ii += 1
 
@@ -1274,7 +1410,7 @@ def convert(ex, st, x, xt, t):
     if xu.k == 'basic' and xu.is_string and u.k == 'slice':
         eu = ex.U(ex.T(u.elem))
         if eu.bits == 8:
-            oid = ex.new_obj(st, list(x.b), '[]byte(string)')
+            oid = ex.new_obj(st, list(x.b), '[]byte(string)', [eu])
             return Slice(oid, 0, len(x.b), len(x.b), 1)
         raise EngineError('[]rune(string)')
     if xu.k == 'slice' and u.k == 'basic' and u.is_string:
@@ -1573,7 +1709,7 @@ def h_makeslice(ex, st, fr, ins):
     t = ex.U(ex.T(ins['t']))
     et = ex.T(t.elem)
     z = list(ex.zero_slots(et))
-    oid = ex.new_obj(st, z * cp, 'make')
+    oid = ex.new_obj(st, z * cp, 'make', ex.leafs(et))
     fr.regs[ins['r']] = Slice(oid, 0, ln, cp, len(z))
     fr.ii += 1
 
